@@ -23,12 +23,12 @@ leaves, and the hull span of every call.
 from vlib import core
 from gen import grammars as G
 
-MAGIC = "7777777"
+MAGIC = "77"
 
 KEY_EMPTY = ("span of a production deriving no lexeme is copied from the previous stack entry "
              "instead of being zero-length")
-KEY_LEAD = ("span of a production whose first child derives no lexeme starts at the previous stack entry "
-            "(or at 0) instead of at its first lexeme")
+KEY_LEAD = ("span of a production that begins with a subtree deriving no lexeme starts where that subtree's "
+            "span starts (previous stack entry, or 0) instead of at its first lexeme")
 
 CORPUS = [
     # the witnesses of DESIGN §9 (text positions given explicitly)
@@ -259,7 +259,7 @@ def oracle(prods, p, rec):
     used = {}
     size = [0] * n            # calls in the subtree
     leaves = [None] * n       # lexemes under the call
-    first_empty = [False] * n
+    lead = [False] * n         # begins with a subtree deriving no lexeme (recursively through first children)
     tree_s = [None] * n
     for k, c in enumerate(calls):
         if c["k"] != k:
@@ -311,7 +311,7 @@ def oracle(prods, p, rec):
         size[k], leaves[k] = sz, lv
         tree_s[k] = "(%d%s)" % (c["ridx"], "".join(" " + x for x in ts))
         a0 = c["args"][0] if c["args"] else None
-        first_empty[k] = a0 is not None and a0[0] == "v" and not leaves[a0[1]]
+        lead[k] = a0 is not None and a0[0] == "v" and (not leaves[a0[1]] or lead[a0[1]])
         # ---- the span
         s, e = c["span"]
         if not lv:
@@ -320,7 +320,7 @@ def oracle(prods, p, rec):
         else:
             es, ee = lv[0][1], lv[-1][2]
             if (s, e) != (es, ee):
-                if e == ee and first_empty[k]:
+                if e == ee and lead[k] and s == calls[c["args"][0][1]]["span"][0]:
                     probs.append(("lead", "call %d (production %d) derived lexemes %d..%d but got span (%d,%d)"
                                   % (k, c["pidx"], es, ee, s, e)))
                 else:
@@ -347,11 +347,11 @@ def oracle(prods, p, rec):
             it = iter(p.lexemes)
             if not all(any(x == y for y in it) for x in real):
                 probs.append(("leaves", "non-faulty leaves %s are not a subsequence of the input %s" % (real, p.lexemes)))
+            # (a Shift/Insert of the applied sequence that meets an Error cell is silently skipped by lr_upto —
+            #  C05's subject — so the repairs only bound the number of inserted leaves)
             ins = sum(1 for r in p.ea for w in r.split()[3:] if w.startswith("I"))
-            dels = sum(1 for r in p.ea for w in r.split()[3:] if w == "D")
-            if len(lv) - len(real) != ins or len(p.lexemes) - len(real) != dels:
-                probs.append(("leaves", "leaves %s vs input %s: %d inserted / %d deleted by the applied repairs"
-                              % (lv, p.lexemes, ins, dels)))
+            if len(lv) - len(real) > ins:
+                probs.append(("leaves", "leaves %s contain more faulty lexemes than the %d Inserts of the applied repairs" % (lv, ins)))
             if any(f and s != e for (t, s, e, f) in lv):
                 probs.append(("leaves", "a faulty (inserted) lexeme is not zero-length"))
     elif p.oa is not None and p.oa.startswith("none") and not p.ea:
@@ -375,15 +375,18 @@ def run(ctx):
         ctx.oblige(True)
     exe = core.build_harness("c08")
     mexe = core.build_model("c08")
-    cases = gen_cases(ctx, ctx.n(130, 1500), ctx.n(9, 14))
+    cases = gen_cases(ctx, ctx.n(300, 3000), ctx.n(10, 16))
     lines = [case_line(*c) for c in cases]
-    impl = core.run_lines([exe], lines, env={"GVH_CASE_TIMEOUT_MS": "30000"})
+    # the hook GRMTOOLS_VERIF_RECOVERY_BUDGET_MS (cfg grmtools_verif) bounds the time CPCT+ may spend per parse:
+    # on ambiguous grammars a parse can otherwise repair thousands of errors until the 500 ms run out
+    env = {"GVH_CASE_TIMEOUT_MS": "30000", "GRMTOOLS_VERIF_RECOVERY_BUDGET_MS": "60"}
+    impl = core.run_lines([exe], lines, env=env)
     # a HANG/CRASH loses the whole case: redo it input by input
     for i, out in enumerate(impl):
         if out.startswith("HANG") or out.startswith("CRASH"):
             src, rec, inputs = cases[i]
             sub = [case_line(src, rec, [])] + [case_line(src, rec, [inp]) for inp in inputs]
-            outs = core.run_lines([exe], sub, env={"GVH_CASE_TIMEOUT_MS": "3000"})
+            outs = core.run_lines([exe], sub, env=dict(env, GVH_CASE_TIMEOUT_MS="3000"))
             if not outs[0].startswith("G "):
                 continue
             st = outs[0]
@@ -397,6 +400,7 @@ def run(ctx):
             impl[i] = st
     model = core.run_lines([mexe], impl)
     matched_cur = matched_fix = 0
+    only_cur_example = only_fix_example = None
     known_seen = {"empty": 0, "lead": 0}
     for (src, rec, inputs), il, ml in zip(cases, impl, model):
         if not il.startswith("G "):
@@ -436,8 +440,11 @@ def run(ctx):
                 same_cur = same_fix = True if not unknown else False
             if same_fix and not same_cur:
                 matched_fix += 1
+                only_fix_example = only_fix_example or replay
             elif same_cur:
                 matched_cur += 1
+                if not same_fix and known and only_cur_example is None:
+                    only_cur_example = dict(replay, what=known[0][1])
             if same_fix and not same_cur and known:
                 # the repaired mirror is proved to satisfy the hull spec: the oracle must agree
                 unknown = unknown + known
@@ -470,6 +477,13 @@ def run(ctx):
                  {"grammar": src, "recovery": bool(rec), "parses": len(parses), "accepted": n_acc,
                   "first_input": " ".join("%d@%d-%d" % l for l in parses[0].lexemes) if parses else "",
                   "first_log": parses[0].log if parses else []})
+    if only_cur_example and only_fix_example:
+        # e.g. the repair applied to Parser::lr but not to its copy in lr_upto (or vice versa)
+        ctx.violation(dict(only_cur_example, violated="span",
+                           note="some parses follow the repaired span computation, this one still today's: the two copies of the "
+                                "reduce code (Parser::lr, Parser::lr_upto) have drifted apart",
+                           a_parse_following_the_repaired_code=only_fix_example))
+        ctx.oblige(False)
     ctx.coverage["impl_matches_mirror_of_todays_code"] = matched_cur
     ctx.coverage["impl_matches_only_mirror_of_repaired_code"] = matched_fix
     ctx.coverage["known_span_defect_instances"] = known_seen
